@@ -110,7 +110,7 @@ SHALLOW = {'dict', 'list', 'tuple', 'set', 'sorted', 'reversed', 'copy', 'items'
            'values', 'keys', 'get', 'enumerate', 'zip', 'filter', 'map', 'iter', 'next'}
 
 
-def stores_into_arguments(fn, params):
+def stores_into_arguments(fn, params, shared=()):
   """[(node, text)] places where the function writes into an object it was
   handed (or into anything reachable from it): x[k] = v, del x[k], x.append(..)
   where x is a parameter, part of one, or an element obtained by iterating one.
@@ -120,8 +120,12 @@ def stores_into_arguments(fn, params):
   copy.deepcopy(..) gives an unshared object."""
   level = {p: 0 for p in params}
 
+  shared = set(shared)
+
   def lvl(e):
     """sharing level of the value of e: 0, 1 or None (not shared)."""
+    if shared and isinstance(e, ast.Attribute) and _text(e) in shared:
+      return 0             # an attribute that holds an object of the caller
     if isinstance(e, ast.Name):
       return level.get(e.id)
     if isinstance(e, (ast.Subscript, ast.Attribute)):
